@@ -154,6 +154,7 @@ class Engine:
 
 
 _POOL = {}
+_INHERITED = []  # engines of a parent process: never used, never finalised (DuckDB objects must not die in a forked child)
 
 
 def get(name: str) -> Engine:
@@ -161,7 +162,7 @@ def get(name: str) -> Engine:
     key = (os.getpid(), name)
     if key not in _POOL:
         for old in [k for k in _POOL if k[0] != os.getpid()]:
-            _POOL.pop(old)  # inherited from the parent: just forget (closing would touch the parent's files)
+            _INHERITED.append(_POOL.pop(old))
         _POOL[key] = Engine(name)
     return _POOL[key]
 
@@ -174,6 +175,9 @@ def _close_all():
 
 
 atexit.register(_close_all)
+# no live DuckDB connection may cross a fork (sharded runs, reader-level restarts): they are closed in the parent right
+# before it forks and re-created lazily afterwards
+os.register_at_fork(before=_close_all)
 
 
 def both() -> list:
